@@ -51,8 +51,9 @@ from impl import oauth2_server as S  # noqa: E402
 class Runner:
     """Runs a prefix of concrete requests fault-free on a fresh world, then the probe."""
 
-    def __init__(self, ctx):
+    def __init__(self, ctx, o1_provider="flask"):
         self.ctx = ctx
+        self.o1_provider = o1_provider
         self.fired = []      # per step: the callback at which the injected failure was raised (None: not reached)
 
     def run(self, steps, fclass=None):
@@ -60,7 +61,7 @@ class Runner:
         from impl import transports as T
         self.transport = T.pick(steps)
         self.ctx.count("transport:" + self.transport)
-        w = F.World(self.ctx.model, self.transport)
+        w = F.World(self.ctx.model, self.transport, self.o1_provider)
         try:
             res, mreqs = [], []
             for i, (req, fault) in enumerate(steps):
@@ -124,20 +125,24 @@ def stored(snap, cred):
     return True
 
 
-def check_probe(ctx, prefix, req, fault, label, retry_req=None, second_fault=None, fclass=None):
-    """prefix: fault-free requests; then `req` with `fault` (maybe a second faulted attempt), then the retry."""
+def check_probe(ctx, prefix, req, fault, label, retry_req=None, second_fault=None, fclass=None, o1_provider="flask"):
+    """prefix: fault-free requests; then `req` with `fault` (maybe a second faulted attempt), then the retry.
+    o1_provider="django": the OAuth 1 requests go to the Django integration; the property's oracles apply, the model does not."""
     steps = [(r, None) for r in prefix] + [(req, fault)]
     if second_fault is not None:
         steps.append((req, second_fault))
     steps.append((retry_req or req, None))
-    runner = Runner(ctx)
+    runner = Runner(ctx, o1_provider)
     res, mreqs = runner.run(steps, fclass)
-    mod = ctx.model.call("faultflow_run", {"ops": mreqs})
-    impl = [[o, tr, impl_snapshot(s)] for o, tr, s in res]
-    modl = [[norm_out(o), tr, model_snapshot(s)] for o, tr, s in mod]
     case = {"prefix": prefix, "req": req, "fault": fault, "second_fault": second_fault, "retry": retry_req, "fault_class": fclass}
-    ctx.case(case, json.dumps(case, sort_keys=True), "probe:%s:%s" % (req["kind"], label))
-    ctx.compare("faultflow", case, impl, modl)
+    if o1_provider != "flask":
+        case["o1_provider"] = o1_provider
+    ctx.case(case, json.dumps(case, sort_keys=True), "probe:%s%s:%s" % ("" if o1_provider == "flask" else o1_provider + ":", req["kind"], label))
+    if o1_provider == "flask":
+        mod = ctx.model.call("faultflow_run", {"ops": mreqs})
+        impl = [[o, tr, impl_snapshot(s)] for o, tr, s in res]
+        modl = [[norm_out(o), tr, model_snapshot(s)] for o, tr, s in mod]
+        ctx.compare("faultflow", case, impl, modl)
     # ---- the property on the implementation's observations
     n = len(prefix)
     before = res[n - 1][2] if n else {"codes": [], "tokens": [], "devices": [], "temps": [], "tok1": [], "nonces": [], "counter": 0}
@@ -335,6 +340,14 @@ def run(ctx):
                     if ok and k < ncalls and out2[-1][0][0] != "ok":
                         ctx.violation("C19:lost-grant:%s" % req["kind"], "after the fault cleared, the re-signed request was refused although the grant had not been used",
                                       {"prefix": reqs[:j], "req": req, "fault": k, "retry": fresh})
+                if req["kind"].startswith("o1_") and all(r["kind"].startswith("o1_") for r in reqs[:j]):
+                    # the same probe on the Django OAuth 1 integration (its callback sequence is its own: the fault index runs over it)
+                    fresh = dict(req, nonce_raw=req["nonce_raw"] + "r") if req["kind"] != "o1_authorize" else None
+                    out3 = check_probe(ctx, reqs[:j], req, k, "k%d" % k, retry_req=fresh, fclass=fc, o1_provider="django")
+                    faulted = out3[len(reqs[:j])][0]
+                    if ok and faulted[0] == "raised" and out3[-1][0][0] != "ok":
+                        ctx.violation("C19:lost-grant:django:%s" % req["kind"], "Django OAuth 1 integration: after the fault cleared, the re-signed request was refused "
+                                      "although the grant had not been used", {"prefix": reqs[:j], "req": req, "fault": k, "retry": fresh, "o1_provider": "django"})
     # seeded pairs of faults
     for _ in range(pairs):
         name, reqs = rng.choice(hs)
@@ -344,4 +357,5 @@ def run(ctx):
 
 
 def run_case(ctx, case):
-    check_probe(ctx, case["prefix"], case["req"], case["fault"], "replayed", retry_req=case.get("retry"), second_fault=case.get("second_fault"), fclass=case.get("fault_class"))
+    check_probe(ctx, case["prefix"], case["req"], case["fault"], "replayed", retry_req=case.get("retry"), second_fault=case.get("second_fault"), fclass=case.get("fault_class"),
+                o1_provider=case.get("o1_provider", "flask"))
